@@ -446,6 +446,7 @@ func runC10(env *Env) {
 				addTrunc("plain", "apply", comp, b.plain[comp.Algo])
 				addTrunc("plain", "optimize", comp, b.plain[comp.Algo])
 				addTrunc("optimized", "apply", comp, b.optimized[comp.Algo])
+				addTrunc("optimized", "optimize", comp, b.optimized[comp.Algo]) // the optimizer fed an already optimized patch
 				addTrunc("signature", "signature", comp, b.sig[comp.Algo])
 			}
 			addTrunc("overlay", "overlay", Comp{"none", 0}, b.overlayStream)
